@@ -254,22 +254,51 @@ structure PState where
 
 def PState.init : PState := {}
 
+/-- `self.last_test + 1 if m.group(2) is None else int(m.group(2))` -/
+def testNumber (s : PState) (num : Option (List Char)) : Nat :=
+  match num with
+  | none => s.lastTest + 1
+  | some d => natOfDigits d
+
+/-- `self.plan and self.plan.late and not self.found_late_test` -/
+def lateNow (s : PState) : Bool :=
+  match s.plan with
+  | some p => p.late && !s.foundLateTest
+  | none => false
+
+/-- `self.plan and self.last_test > self.plan.num_tests` -/
+def exceedsPlan (s : PState) (n : Nat) : Bool :=
+  match s.plan with
+  | some p => decide (n > p.numTests)
+  | none => false
+
 /-- the `_RE_TEST` branch of `parse_line` -/
 def onTest (s : PState) (ok : Bool) (num : Option (List Char)) (name : List Char)
     (dir expl : Option (List Char)) : PState × List Event :=
-  let late : Bool := match s.plan with
-    | some p => p.late && !s.foundLateTest
-    | none => false
-  let n : Nat := match num with
-    | none => s.lastTest + 1
-    | some d => natOfDigits d
-  let exceeds : Bool := match s.plan with
-    | some p => decide (n > p.numTests)
-    | none => false
-  ({ s with foundLateTest := s.foundLateTest || late, numTests := s.numTests + 1, lastTest := n,
+  let n := testNumber s num
+  ({ s with foundLateTest := s.foundLateTest || lateNow s, numTests := s.numTests + 1, lastTest := n,
             highestTest := max s.highestTest n, state := .afterTest },
-   (if late then [.error .lateTest] else []) ++ (if exceeds then [.error .exceedsPlan] else []) ++
+   (if lateNow s then [.error .lateTest] else []) ++ (if exceedsPlan s n then [.error .exceedsPlan] else []) ++
      parseTest ok n name dir expl)
+
+/-- `m.group(2)` under `if m.group(2):` — None and the empty string are falsy -/
+def truthyDir (dir : Option (List Char)) : Option (List Char) :=
+  match dir with
+  | some d => if d.isEmpty then none else some d
+  | none => none
+
+/-- `m.group(2).upper().startswith('SKIP')` (false without a directive) -/
+def planIsSkip (dir : Option (List Char)) : Bool :=
+  match truthyDir dir with
+  | some d => startsWith (upper d) kSKIP
+  | none => false
+
+/-- the errors a plan directive produces -/
+def planErrs (dir : Option (List Char)) (n : Nat) : List Event :=
+  match truthyDir dir with
+  | none => []
+  | some _ => if planIsSkip dir then (if n > 0 then [.error .planSkipInvalid] else [])
+              else [.error .planDirectiveInvalid]
 
 /-- the `_RE_PLAN` branch -/
 def onPlan (s : PState) (ds : List Char) (dir expl : Option (List Char)) : PState × List Event :=
@@ -277,20 +306,9 @@ def onPlan (s : PState) (ds : List Char) (dir expl : Option (List Char)) : PStat
   | some _ => (s, [.error .secondPlan])
   | none =>
     let n := natOfDigits ds
-    -- `if m.group(2):` — a non-empty string
-    let dir := match dir with
-      | some d => if d.isEmpty then none else some d
-      | none => none
-    let isSkip : Bool := match dir with
-      | some d => startsWith (upper d) kSKIP
-      | none => false
-    let errs : List Event := match dir with
-      | none => []
-      | some _ => if isSkip then (if n > 0 then [.error .planSkipInvalid] else [])
-                  else [.error .planDirectiveInvalid]
     let p : Plan := { numTests := n, late := decide (s.numTests > 0),
-                      skipped := (n == 0) || isSkip, explanation := expl }
-    ({ s with plan := some p }, errs ++ [.plan p])
+                      skipped := (n == 0) || planIsSkip dir, explanation := expl }
+    ({ s with plan := some p }, planErrs dir n ++ [.plan p])
 
 /-- the `_RE_VERSION` branch -/
 def onVersion (s : PState) (ds : List Char) : PState × List Event :=
